@@ -85,8 +85,8 @@ type devBatch struct {
 	Sub     string          `json:"sub"` // sub-handler name the events come from
 	// Optional: when ParseData rejects the rendered configuration the batch is skipped (logged as
 	// "rejected") instead of being an error: the quantifier is "configurations the parser accepts"
-	Optional bool `json:"optional"`
-	Walks   [][]devInput    `json:"walks"`
+	Optional bool         `json:"optional"`
+	Walks    [][]devInput `json:"walks"`
 }
 
 func keyCode(name string) (evdev.EvCode, error) {
